@@ -263,7 +263,9 @@ FQN[split='/']: /\w+(\/\w+)*/;
     mm = metamodel_from_str(g)
     try: return mm.model_from_str("pkg p { item a } ref p/a").refs[0].ref.name != "a"
     except TextXError: return True
-ALL = [F43, F42, F41, F40, F39, F38, F37, F36, F28, F1, F2, F3, F4, F5, F6, F7, F8, F9, F10, F11, F12, F13, F14, F15_16, F18, F19, F20, F21, F22, F23, F24, F26, F27]
+def F44():  # C02 an unordered group around one assignment drops the value
+    return metamodel_from_str("Model: (x=INT)#;").model_from_str("3").x != 3
+ALL = [F44, F43, F42, F41, F40, F39, F38, F37, F36, F28, F1, F2, F3, F4, F5, F6, F7, F8, F9, F10, F11, F12, F13, F14, F15_16, F18, F19, F20, F21, F22, F23, F24, F26, F27]
 if __name__ == "__main__":
     sel = sys.argv[1:]
     for w in ALL:
